@@ -14,13 +14,15 @@ func init() {
 	register(&RuleSet{
 		Meta: core.PropertyMeta{
 			ID: "C13",
-			Explanation: "K non-decrease, rounding direction and proportional-share arithmetic are NOT decided (numeric). Decided, for the live pool handlers, the pool-token pairing without which liquidity shares are created or destroyed out of thin air: " +
+			Explanation: "That the constant product never shrinks and that add-then-remove never pays out more than was put in are arithmetic consequences that are NOT derived here, and nothing numeric is decided about the order-fill calculations. Decided: " +
+				"(formula) the five functions those consequences rest on compute what they are documented to compute, including the direction of every rounding — on every path to every return of PairV2.CalculateBuyForSell, CalculateSellForBuy, CalculateAddLiquidity and Amounts the returned value, recovered from the def-use chain with a transfer function per math/big method and compared as a rational function of the arguments and the two reserves with opaque integer-quotient terms, is r1 − ⌊r0·r1/(r0 + 0.998·in)⌋ − 1, ⌊(⌊r0·r1/(r1 − out)⌋ − r0)/0.998⌋ + 1 (evaluated only after out < r1 was established), (⌊T·a/r0⌋, ⌊a·r1/r0⌋) and (⌊l·r0/T⌋, ⌊l·r1/T⌋), and checkSwap returns nil only on paths that established out0 ≤ r0, out1 ≤ r1 and the adjusted-balance product ≥ r0·r1·10^6; " +
+				"and, for the live pool handlers, the pool-token pairing without which liquidity shares are created or destroyed out of thin air: " +
 				"(create) CreateSwapPool registers the pool token with volume = the liquidity PairCreate returned (copied before it is reduced), credits liquidity − Bound to the sender and exactly swap.Bound to the zero address (which no transaction can debit: C05.debitor), and debits the sender the amounts PairCreate returned in the pool's own coins; " +
 				"(mint) AddLiquidity passes the pool token's current Volume() of the pool (coin0, coin1) as totalSupply to PairMint, adds the returned liquidity to the token's volume and credits the same value to the sender, and debits the returned amounts in the pool's coins; " +
 				"(burn) RemoveLiquidity passes the token's Volume() as totalSupply to PairBurn with data.Liquidity, burns exactly data.Liquidity from the token's volume and from the sender's balance, and credits the returned amounts in the pool's coins to the sender; " +
 				"(key) every access of the live pool table uses the normalised (sorted) coin pair, so a pool cannot be missed or created twice when the coins arrive in the other order; (token) in all three the token is the one named LiquidityCoinSymbol(<id of the pool (data.Coin0, data.Coin1)>).",
 			Assumptions: stdAssumptions,
-			Rules:       []string{"C13.create", "C13.mint", "C13.burn", "C13.key", "C13.sim"},
+			Rules:       []string{"C13.create", "C13.mint", "C13.burn", "C13.key", "C13.sim", "C13.formula"},
 		},
 		Run: runC13,
 	})
@@ -48,6 +50,7 @@ func extractOf(v ssa.Value, call ssa.Value, idx int) bool {
 
 func runC13(c *core.Ctx) {
 	defer checkRunningSimulation(c, "C13.sim")
+	defer checkPoolFormulas(c, "C13.formula")
 	for _, m := range LiveModels(c, "C13.create") {
 		switch m.H.ConstName {
 		case "TypeCreateSwapPool":
